@@ -180,6 +180,10 @@ def verify_unit(reg, idx: SourceIndex, c: Contract, timeout_ms=None, seed=0, dis
                 if hit is not None:
                     cv = eng.truth(eng.spec_eval(hit[1], dict(env0), o.st, mod, c), o.st)
                     ctx.oblige(f"raise/{o.exc}/justified", o.st, cv, kind="exc-justified", info={"path": ctx.paths})
+                elif any(issubclass(ec, exc_class(e)) for e in c.raise_allowed):
+                    e0 = next(e for e in c.raise_allowed if issubclass(ec, exc_class(e)))
+                    cv = eng.truth(eng.spec_eval(c.raise_allowed[e0], dict(env0), o.st, mod, c), o.st)
+                    ctx.oblige(f"raise/{o.exc}/allowed", o.st, cv, kind="exc-justified", info={"path": ctx.paths})
                 elif any(issubclass(ec, exc_class(e)) for e in c.may_raise):
                     pass
                 else:
